@@ -58,6 +58,12 @@ class Module:
                 self.tree = ast.parse(self.source, filename=rel)
         except SyntaxError as e:
             raise AnalysisError(f"cannot parse {rel}: {e}")
+        # canonical form on every normal form of the tree: gradient-context decorators are lowered to `with` blocks (sa/normalize.py)
+        try:
+            from .normalize import lower_grad_decorators
+            lower_grad_decorators(self.tree)
+        except Exception:
+            pass
         # inventory-anchored normalisation (sa/normalize.py): a no-op on the reference tree
         self.normalized = False
         norm_level = int(os.environ.get("VERIF_NORM_LEVEL", "2") or 2)
@@ -71,6 +77,10 @@ class Module:
                 with warnings.catch_warnings():
                     warnings.simplefilter("ignore")
                     self.tree = ast.parse(self.source, filename=rel)
+                try:
+                    lower_grad_decorators(self.tree)
+                except Exception:
+                    pass
                 self.normalized = False
         self.parents: Dict[ast.AST, ast.AST] = {}
         for p in ast.walk(self.tree):
